@@ -43,12 +43,12 @@ Lemma in_deprecable_iv : forall S iv, In iv (all_input_values S) -> In (iv_dirs 
 Proof. intros. unfold all_deprecable_dirs. apply in_or_app. right. apply in_map. auto. Qed.
 
 (* ------------------------------------------------------------------ no panic *)
-Lemma dirs_no_panic : forall ds, dirs_wf ds = true -> reason_of ds <> Some VNull -> dirs_panic ds = false.
+Lemma dirs_no_panic : forall ds, dirs_wf ds = true -> dirs_panic ds = false.
 Proof.
-  intros ds W R. unfold dirs_panic, dirs_wf, reason_of in *. rewrite find_dir_sp.
+  intros ds W. unfold dirs_panic, dirs_wf in *. rewrite find_dir_sp.
   destruct (sp_dir #"deprecated" ds) as [d|]; auto. rewrite find_arg_sp.
   destruct (sp_arg #"reason" d) as [v|]; auto.
-  destruct v; try discriminate; auto. congruence.
+  destruct v; try discriminate; auto.
 Qed.
 
 Lemma fields_add_typename_in : forall sub t f, In f (td_fields (add_typename sub t)) -> In f (td_fields t) \/ f = typename_field.
@@ -299,7 +299,7 @@ Section Shape.
   Lemma merged_types : s_types M = map (add_typename (match s_subscription S with Some n => n | None => [] end))
                                         (update_first (s_query S) add_introspection_fields ts0).
   Proof.
-    destruct (gen_ok_parts S GOK) as [_ [_ [_ [_ [_ [_ [_ [_ RS]]]]]]]].
+    destruct (gen_ok_parts S GOK) as [_ [_ [_ [_ [_ [_ [_ RS]]]]]]].
     unfold M, merge_base. fold ts0. rewrite has_query. cbn [s_types].
     rewrite (root_default_same (s_subscription S) #"Subscription"); auto.
   Qed.
@@ -312,13 +312,13 @@ Section Shape.
   Qed.
   Lemma merged_mutation : s_mutation M = s_mutation S.
   Proof.
-    destruct (gen_ok_parts S GOK) as [_ [_ [_ [_ [_ [_ [_ [RM _]]]]]]]].
+    destruct (gen_ok_parts S GOK) as [_ [_ [_ [_ [_ [_ [RM _]]]]]]].
     unfold M, merge_base. fold ts0. rewrite has_query. cbn [s_mutation].
     apply root_default_same; auto.
   Qed.
   Lemma merged_subscription : s_subscription M = s_subscription S.
   Proof.
-    destruct (gen_ok_parts S GOK) as [_ [_ [_ [_ [_ [_ [_ [_ RS]]]]]]]].
+    destruct (gen_ok_parts S GOK) as [_ [_ [_ [_ [_ [_ [_ RS]]]]]]].
     unfold M, merge_base. fold ts0. rewrite has_query. cbn [s_subscription].
     apply root_default_same; auto.
   Qed.
@@ -350,7 +350,7 @@ Section Shape.
   (* --- no panic --- *)
   Lemma user_dirs_no_panic : forall ds, In ds (all_deprecable_dirs S) -> dirs_wf ds = true -> dirs_panic ds = false.
   Proof.
-    intros ds I W. destruct (gen_ok_parts S GOK) as [_ [_ [N _]]]. apply dirs_no_panic; auto.
+    intros ds I W. apply dirs_no_panic; auto.
   Qed.
 
   Lemma iv_wf_dirs : forall iv, iv_wf S iv = true -> dirs_wf (iv_dirs iv) = true.
@@ -427,7 +427,7 @@ Section Shape.
 
   Lemma all_names_nodup : NoDup (map td_name (s_types S) ++ base_scalar_names).
   Proof.
-    destruct (wf_parts S WF) as [ND _]. destruct (gen_ok_parts S GOK) as [_ [_ [_ [_ [_ [B _]]]]]].
+    destruct (wf_parts S WF) as [ND _]. destruct (gen_ok_parts S GOK) as [_ [_ [_ [_ [B _]]]]].
     apply NoDup_app_intro; auto.
     - repeat constructor; simpl; intuition discriminate.
     - intros n I1 I2. apply in_map_iff in I1. destruct I1 as [t [E I]]. subst n. eapply B; eauto.
